@@ -1,6 +1,7 @@
 """Per-property configuration of the checks (harness modules, tiers, claim text)."""
 
 STUB_SETS = {
+    "T2": "Tracker::record_during_with reduced to running its closure (drops the tracker's rule stack Vec; only feeds error reports)",
     "T0": "Tracker::{record,empty_stack,out_of_bound,repeat_too_many_times} replaced by no-ops (error bookkeeping "
           "never feeds back into matching; non-interference discharged by c10_noninterf_*)",
     "T1": "Tracker::{get_entry,clear} replaced by one static slot of fixed arrays (BTreeMap cut)",
@@ -48,6 +49,12 @@ PROPS = {
         quick=dict(jobs=14, timeout_s=900, mem_gb=8),
         thorough=dict(jobs=12, timeout_s=3600, mem_gb=16),
         bounds="", outside="", explanation="", assumptions=[], claim="wip", note="wip",
+    ),
+    "G": dict(
+        modules=["gen/*"],
+        quick=dict(jobs=14, timeout_s=1200, mem_gb=10),
+        thorough=dict(jobs=10, timeout_s=3600, mem_gb=24),
+        bounds="", outside="", explanation="dev: all generated harnesses", assumptions=[], claim="dev", note="dev",
     ),
     "C01": dict(
         modules=["c01"],
